@@ -655,8 +655,11 @@ class MQTTBaseProtocol(Protocol):
         Handles PINGRESP packet from the server
         '''
         log.debug("<== {packet:7}", packet="PINGRESP")
-        self._pingReq.alarm.cancel()
-        self._pingReq.alarm = None
+        # a PINGRESP nobody asked for (or sent twice) finds no alarm to cancel
+        if self._pingReq.alarm is not None:
+            if self._pingReq.alarm.active():
+                self._pingReq.alarm.cancel()
+            self._pingReq.alarm = None
 
 
     # ---------------------------
